@@ -174,9 +174,10 @@ def prune_dead_world_facts(p):
             live |= _world_syms(v)
     keep = []
     for c in p.pc:
-        ws = _world_syms(c)
-        if ws and not (ws & live):
-            continue
+        if _has_quant(c):
+            ws = _world_syms(c)
+            if ws and not (ws & live):
+                continue
         keep.append(c)
     p.pc = keep
 
